@@ -323,6 +323,7 @@ fn record_findings(
     hosts: &[HostSlot],
     outcome: &CaseOutcome,
     seed_state: [u64; 4],
+    foreign_wakers: bool,
 ) {
     let wrapped: Vec<Option<Cmd>> = hosts.iter().map(|h| h.program.clone()).collect();
     for f in &outcome.findings {
@@ -340,6 +341,7 @@ fn record_findings(
                 "pre_abort": outcome.pre_abort,
                 "wrapped": wrapped,
                 "rng_state": seed_state,
+                "foreign_wakers": foreign_wakers,
             }),
         );
     }
@@ -420,11 +422,16 @@ fn main() {
                 cfg.extend_pool.push(g.program());
             }
         }
+        // one case in five: the request / stream futures of script tasks are polled through the
+        // foreign-waker adapter (a fresh waker per poll, wake-ups through older ones ignored)
+        let foreign_wakers = Rng::derive(seed, case_no, 4242).chance(1, 5);
+        cmdlab::probe::PROBE_ON.store(foreign_wakers, std::sync::atomic::Ordering::SeqCst);
         wd.begin(|| {
-            json!({"lane": "cmdlab", "setup": setup.name(), "program": program, "rng_state": state, "note": "actions are generated while running; re-run with this rng_state"}).to_string()
+            json!({"lane": "cmdlab", "setup": setup.name(), "program": program, "rng_state": state, "foreign_wakers": foreign_wakers, "note": "actions are generated while running; re-run with this rng_state"}).to_string()
         });
         let outcome = vcommon::trap(|| run_case(&program, &mut hosts, &modes, &mut rng, &cfg, None));
         wd.end();
+        cmdlab::probe::PROBE_ON.store(false, std::sync::atomic::Ordering::SeqCst);
         let mut r = report.lock().unwrap();
         r.eval();
         match outcome {
@@ -448,6 +455,9 @@ fn main() {
                 r.count("is_done_not_compared_cancellation_sweep_pending", s.done_unknown as u64);
                 r.count("held_value_checks", s.holds_checked as u64);
                 r.count("host_runs", hosts.len() as u64);
+                if foreign_wakers {
+                    r.count("cases_with_foreign_wakers", 1);
+                }
                 r.count("steps_with_outputs_left_queued_by_a_lagging_consumer", s.lagged_steps as u64);
                 if outcome.pre_abort.is_some() {
                     r.count("aborts_before_first_poll", 1);
@@ -478,7 +488,7 @@ fn main() {
                 if nontrivial {
                     r.sample(|| json!({"setup": setup.name(), "program": program, "actions": outcome.actions}));
                 }
-                record_findings(&mut r, setup, &program, &hosts, &outcome, state);
+                record_findings(&mut r, setup, &program, &hosts, &outcome, state, foreign_wakers);
             }
             Err(panic) => {
                 let site = vcommon::panic_site(&panic);
@@ -535,7 +545,7 @@ fn main() {
                     r.count("out_of_issue_order_resolutions", s.out_of_order as u64);
                     r.max("max_outstanding_requests", s.max_outstanding as u64);
                     r.nontrivial(hash_json(&(width, state)));
-                    record_findings(&mut r, setup, &program, &hosts, &outcome, state);
+                    record_findings(&mut r, setup, &program, &hosts, &outcome, state, false);
                 }
                 Err(panic) => {
                     let site = vcommon::panic_site(&panic);
@@ -624,7 +634,7 @@ fn main() {
                     r.max("max_outputs_of_one_command", (s.effects + s.events) as u64);
                     r.set("setups", setup.name());
                     r.nontrivial(hash_json(&(&program, &outcome.actions)));
-                    record_findings(&mut r, setup, &program, &hosts, &outcome, state);
+                    record_findings(&mut r, setup, &program, &hosts, &outcome, state, false);
                 }
                 Err(panic) => {
                     let site = vcommon::panic_site(&panic);
@@ -771,6 +781,8 @@ fn replay(args: &Args, path: &str, report: &Arc<Mutex<Report>>) {
         }
     }
     let cfg = RunCfg::default_for(actions.len());
+    let foreign_wakers = rep["foreign_wakers"].as_bool().unwrap_or(false);
+    cmdlab::probe::PROBE_ON.store(foreign_wakers, std::sync::atomic::Ordering::SeqCst);
     let outcome = run_case(&program, &mut hosts, &modes, &mut rng, &cfg, Some((&actions, pre_abort)));
     let mut r = report.lock().unwrap();
     r.eval();
@@ -778,5 +790,5 @@ fn replay(args: &Args, path: &str, report: &Arc<Mutex<Report>>) {
         println!("finding {} at step {} on {}: {}", f.signature, f.step, f.host, f.what);
         println!("  {}", f.detail);
     }
-    record_findings(&mut r, setup, &program, &hosts, &outcome, [0; 4]);
+    record_findings(&mut r, setup, &program, &hosts, &outcome, [0; 4], foreign_wakers);
 }
